@@ -16,7 +16,10 @@ theorem powLoop_spec (m : Nat) (t b e : Nat) (ht : t < m) : powLoop m t b e = (t
       · simp [h]
       · simp [h, Nat.mul_comm]
     rw [hsplit]
-    rw [Nat.mul_mod, Nat.mod_mod, ← Nat.pow_mod, ← Nat.mul_mod, Nat.mul_assoc]
+    by_cases h2 : e / 2 = 0
+    · simp [h2]
+    · simp only [h2, if_false]
+      rw [Nat.mul_mod, Nat.mod_mod, ← Nat.pow_mod, ← Nat.mul_mod, Nat.mul_assoc]
 
 theorem Int.pow_emod_congr {a b m : Int} (h : a % m = b % m) (n : Nat) : a ^ n % m = b ^ n % m := by
   induction n with
